@@ -444,9 +444,31 @@ func (c *Ctx) streamChain(rule string) {
 					for _, g := range flow.Guards(ci) {
 						cond, neg := flow.Cond(g.If.Cond, g.Taken)
 						if ex, ok := cond.(*ssa.Extract); ok && ex.Index == 1 && neg {
-							if ta, ok := ex.Tuple.(*ssa.TypeAssert); ok {
-								if nt := flow.NamedOf(ta.AssertedType); nt != nil && strings.HasPrefix(nt.Obj().Name(), "Multistream") {
-									notMulti = true
+							isMultiTest := func(t ssa.Value) bool {
+								ta, ok := t.(*ssa.TypeAssert)
+								if !ok {
+									return false
+								}
+								nt := flow.NamedOf(ta.AssertedType)
+								return nt != nil && strings.HasPrefix(nt.Obj().Name(), "Multistream")
+							}
+							if isMultiTest(ex.Tuple) {
+								notMulti = true
+							}
+							// the type test may be wrapped in a helper returning (conn, ok)
+							if hc, ok := ex.Tuple.(*ssa.Call); ok {
+								if g := flow.StaticCallee(hc); g != nil && g.Blocks != nil && c.P.IsLibrary(g) {
+									rvs := flow.ReturnValues(g, 1)
+									all := len(rvs) > 0
+									for _, rv := range rvs {
+										e2, ok := rv.(*ssa.Extract)
+										if !ok || e2.Index != 1 || !isMultiTest(e2.Tuple) {
+											all = false
+										}
+									}
+									if all {
+										notMulti = true
+									}
 								}
 							}
 						}
